@@ -3,8 +3,13 @@ import time, subprocess, tempfile, os
 from z3 import Solver, Not, unsat, sat, unknown, set_param
 
 
+RL_PER_MS = 2700          # z3 resource units per millisecond on the reference machine (calibrated on the slowest discharged obligations)
+
+
 def check_one(hyps, goal, axioms, timeout_ms, want_model=False, seed=0):
-    s = Solver(); s.set('timeout', timeout_ms)
+    """the budget is z3's deterministic resource limit (rlimit), sized as `timeout_ms` on an idle reference machine; the wall-clock timeout is
+    only a safety net twenty times as long - so a verdict does not depend on how busy the machine is"""
+    s = Solver(); s.set('rlimit', int(timeout_ms * RL_PER_MS)); s.set('timeout', int(timeout_ms * 20))
     if seed: s.set('random_seed', seed)
     s.add(*axioms); s.add(*hyps); s.add(Not(goal))
     t0 = time.time()
